@@ -126,7 +126,7 @@ def shards(tier):
 
 
 # ---------------------------------------------------------------- one case
-def run_impl(text, wrapper):
+def run_impl(text, wrapper, ast_hook=None):
     from mc import hyside
     import warnings
     warnings.simplefilter("ignore")
@@ -136,6 +136,8 @@ def run_impl(text, wrapper):
     try:
         with time_limit(20):
             tree = hyside.compile_text(text, mod)
+            if ast_hook is not None:
+                ast_hook(tree)
             code = compile(tree, "<case>", "exec")
     except CaseTimeout:
         return dict(phase="compile", outcome=("timeout",), log=[], env=None, extra=[])
@@ -173,7 +175,7 @@ def _excclass(e):
     return "NameError" if n == "UnboundLocalError" else n
 
 
-def check_case(acc, term, wrapper, record_sample=False):
+def check_case(acc, term, wrapper, record_sample=False, ast_hook=None):
     """term: un-numbered L term."""
     nt = lang.number(term)
     text = lang.wrap_text(nt, wrapper)
@@ -189,7 +191,7 @@ def check_case(acc, term, wrapper, record_sample=False):
     if m["outcome"][0] == "model-error":
         acc.disagree("harness-model-error", case, str(m["outcome"]), sig="model-error")
         return
-    r = run_impl(text, wrapper)
+    r = run_impl(text, wrapper, ast_hook)
     acc.traces += 1
     acc.transitions += len(r["log"]) + 1
     if record_sample:
